@@ -22,7 +22,7 @@ RULE = ("case = step-level (noise type, h incl. large, random (y0,z0), SDE seed)
 ASSUMPTIONS = ["trajectory level: n*dt kept where the reverse recursion is numerically stable (n <= 200, moderate "
                "Lipschitz constants); thresholds 1e-9*scale (exact / snapped grids), 1e-6*scale unsnapped decimal grids",
                "step level: the carried (f, g) are the vector fields at z (consistent extra state)"]
-REQUIRED_COUNTERS = ["step_cases", "traj_class_A", "traj_class_B", "large_h_steps"]
+REQUIRED_COUNTERS = ["step_cases", "traj_class_A", "traj_class_B", "large_h_steps", "traj_far_time_axis"]
 THRESHOLDS = {"step": 1e-12, "traj_exact": 1e-9, "traj_unsnapped": 1e-6}
 
 
@@ -99,6 +99,9 @@ def run_traj(case):
     else:
         dt, n = rng.choice([(0.1, 10), (0.05, 20), (0.01, 100), (0.025, 37), (0.3, 7)])
     t0 = rng.choice([0.0, 0.0, 0.5]) if kind == "dyadic" else rng.choice([0.0, 0.0, 0.2])
+    if kind == "dyadic" and rng.random() < 0.3:  # exact grids far from zero relative to the step (|t|/dt >= 1e5)
+        t0, dt, n = rng.choice([(1024.0, 2.0 ** -7, 40), (-2048.0, 2.0 ** -6, 64), (64.0, 2.0 ** -11, 30)])
+        cnt["traj_far_time_axis"] = 1
     ts = torch.tensor([t0 + k * dt for k in range(n + 1)])
     entropy = rng.randrange(1, 10 ** 9)
     y0 = torch.randn(B, d, generator=torch.Generator().manual_seed(case["rseed"]))
